@@ -532,7 +532,7 @@ rc::Gen<Case> genSources() {
     Line base = genValidLine(c.cfg, pf);
     if (base.size() < 2) { c.discarded = true; c.discardWhy = "line_too_short"; return c; }
     if (evalModel(c.cfg, base).verdict != ModelResult::ACCEPT) { c.discarded = true; c.discardWhy = "line_not_valid"; return c; }
-    const bool viaArgument = pick(35);
+    const bool viaArgument = pick(50);
     const std::string envName = pick(50) ? "" : "MY_PROG_ARGS";
     const std::string prog = oneOf(std::vector<std::string>{"prog", "/usr/local/bin/prog", "./p", "some/dir/tool7", "x"});
     // evaluation order: file -> env -> argv with the program-argument file; env -> file -> argv when the file is named on argv
@@ -542,12 +542,20 @@ rc::Gen<Case> genSources() {
     const int first = viaArgument ? SRC_ENV : SRC_FILE, second = viaArgument ? SRC_FILE : SRC_ENV;
     Line split = base;
     for (size_t k = 0; k < n; ++k) split[k].source = k < i ? first : k < j ? second : SRC_ARGV;
+    const bool nestedChoice = pick(75);
+    const size_t nestedFrom = *range<size_t>(0, 7), nestedLen = *range<size_t>(0, 7);
     auto build = [&](const Line &line, bool allOnArgv, Variant &v) -> bool {
       SpellOptions so;
       so.withArgFile = viaArgument && !allOnArgv;
       std::vector<std::string> argvWords, envWords;
-      std::string file;
+      std::string file, inner;
       bool haveFile = false, haveEnv = false;
+      // nested argument files: some uses of the file part go into an inner file that the outer one names
+      size_t fileUses = 0;
+      for (auto &u : line) if (!allOnArgv && u.source == SRC_FILE) ++fileUses;
+      const bool nested = viaArgument && !allOnArgv && fileUses >= 2 && nestedChoice;
+      size_t innerFrom = 0, innerTo = 0, fileSeen = 0;
+      if (nested) { innerFrom = nestedFrom % fileUses; innerTo = innerFrom + 1 + (nestedLen % (fileUses - innerFrom)); }
       for (size_t k = 0; k < line.size();) {
         int src = allOnArgv ? SRC_ARGV : line[k].source;
         if (src == SRC_ARGV) {
@@ -559,7 +567,14 @@ rc::Gen<Case> genSources() {
         }
         auto words = spell(c.cfg, Line{line[k]}, so);
         if (lineHasEmptyWord(words)) return false;   // an empty word cannot be written in a file line / environment string
-        if (src == SRC_FILE) {
+        if (src == SRC_FILE && nested && fileSeen >= innerFrom && fileSeen < innerTo) {
+          haveFile = true;
+          if (fileSeen == innerFrom) { if (!file.empty() && file.back() != '\n') file += "\n"; file += "--arg-file @INNER@\n"; }
+          for (size_t w = 0; w < words.size(); ++w) { if (w) inner += ' '; inner += escapeWord(words[w], *range<int>(0, 2)); }
+          inner += "\n";
+          ++fileSeen;
+        } else if (src == SRC_FILE) {
+          ++fileSeen;
           haveFile = true;
           const bool atLineStart = file.empty() || file.back() == '\n';
           if (atLineStart && pick(25)) file += pick(50) ? "# a comment line --input 5\n" : "\n";
@@ -576,7 +591,7 @@ rc::Gen<Case> genSources() {
       if (!file.empty() && file.back() != '\n') file += "\n";
       v.in.argv = {prog};
       for (auto &w : argvWords) v.in.argv.push_back(w);
-      v.in.haveFile = haveFile; v.in.fileBody = file; v.in.fileViaArgument = viaArgument;
+      v.in.haveFile = haveFile; v.in.fileBody = nested ? file + '\x02' + inner : file; v.in.fileViaArgument = viaArgument;
       v.in.haveEnv = haveEnv; v.in.envName = envName;
       for (size_t w = 0; w < envWords.size(); ++w) { if (w) v.in.envBody += std::string(static_cast<size_t>(*range<int>(1, 2)), ' '); v.in.envBody += escapeWord(envWords[w], *range<int>(0, 2)); }
       if (haveEnv && v.in.envBody.empty()) return false;
@@ -636,6 +651,7 @@ std::string runSources(const Case &c) {
     if (v.in.haveFile) st.cls(v.in.fileViaArgument ? "source.arg_file" : "source.prog_arg_file");
     if (v.in.haveEnv) st.cls(v.in.envName.empty() ? "source.env_default_name" : "source.env_named");
     if (v.in.haveFile && v.in.fileBody.find('#') != std::string::npos) st.cls("source.file_comment_line");
+    if (v.in.haveFile && v.in.fileBody.find('\x02') != std::string::npos) st.cls(vi == 2 ? "source.nested_arg_file_override" : "source.nested_arg_file");
     if (vi == 2) st.cls("source.override");
   }
   const Variant &sp = c.vars[1];
@@ -645,6 +661,27 @@ std::string runSources(const Case &c) {
   return "";
 }
 
+
+
+// arguments linked by a constraint (argument or handler constraint) must live in the same member handler:
+// connected components first, then one random member per component
+std::vector<int> partitionArgs(const Config &cfg, int members) {
+  const size_t n = cfg.args.size();
+  std::vector<int> comp(n);
+  for (size_t i = 0; i < n; ++i) comp[i] = static_cast<int>(i);
+  std::function<int(int)> find = [&](int x) { while (comp[x] != x) x = comp[x] = comp[comp[x]]; return x; };
+  auto unite = [&](int x, int y) { comp[find(x)] = find(y); };
+  for (size_t i = 0; i < n; ++i) for (auto &ct : cfg.args[i].constraints) unite(static_cast<int>(i), ct.second);
+  for (auto &h : cfg.hcs) for (size_t k = 1; k < h.args.size(); ++k) unite(h.args[0], h.args[k]);
+  std::map<int, int> memberOf;
+  std::vector<int> groupOf(n);
+  for (size_t i = 0; i < n; ++i) {
+    int r = find(static_cast<int>(i));
+    if (!memberOf.count(r)) memberOf[r] = *range<int>(0, members - 1);
+    groupOf[i] = memberOf[r];
+  }
+  return groupOf;
+}
 
 // ---------------------------------------------------------------- groups mode (C08)
 // differential: Groups::evalArguments over a partition of the arguments == one Handler owning all of them
@@ -668,12 +705,7 @@ rc::Gen<Case> genGroups() {
     }
     // partition: arguments linked by a constraint stay in one member
     int members = *range<int>(1, 4);
-    std::vector<int> groupOf(c.cfg.args.size(), -1);
-    auto link = [&](int x, int y) { if (groupOf[x] < 0 && groupOf[y] < 0) groupOf[x] = groupOf[y] = *range<int>(0, members - 1); else if (groupOf[x] < 0) groupOf[x] = groupOf[y]; else if (groupOf[y] < 0) groupOf[y] = groupOf[x]; };
-    for (size_t i = 0; i < c.cfg.args.size(); ++i) for (auto &ct : c.cfg.args[i].constraints) link(static_cast<int>(i), ct.second);
-    for (auto &h : c.cfg.hcs) for (size_t k = 1; k < h.args.size(); ++k) link(h.args[0], h.args[k]);
-    for (auto &g : groupOf) if (g < 0) g = *range<int>(0, members - 1);
-    // each relation touches an argument at most once (generator invariant), so linked sets are consistent
+    std::vector<int> groupOf = partitionArgs(c.cfg, members);
     Variant v0, v1;
     v0.line = v1.line = line;
     v0.in.argv = {"prog"};
@@ -783,11 +815,7 @@ rc::Gen<Case> genMutate() {
     if (pick(30) && !v.in.haveFile && !v.in.haveEnv) {
       v.in.groupCount = *range<int>(1, 3);
       c.cfg.flags &= F_NO_ABBR;
-      std::vector<int> groupOf(c.cfg.args.size(), -1);
-      auto link = [&](int x, int y) { if (groupOf[x] < 0 && groupOf[y] < 0) groupOf[x] = groupOf[y] = *range<int>(0, v.in.groupCount - 1); else if (groupOf[x] < 0) groupOf[x] = groupOf[y]; else if (groupOf[y] < 0) groupOf[y] = groupOf[x]; };
-      for (size_t i = 0; i < c.cfg.args.size(); ++i) for (auto &ct : c.cfg.args[i].constraints) link(static_cast<int>(i), ct.second);
-      for (auto &h : c.cfg.hcs) for (size_t k = 1; k < h.args.size(); ++k) link(h.args[0], h.args[k]);
-      for (auto &g : groupOf) if (g < 0) g = *range<int>(0, v.in.groupCount - 1);
+      std::vector<int> groupOf = partitionArgs(c.cfg, v.in.groupCount);
       v.in.groupOf = groupOf;
     }
     v.note = "mutated";
